@@ -27,7 +27,6 @@ pub(crate) fn literal(p: &mut Parser<'_>) -> Option<CompletedMarker> {
     if p.at(STRING) {
         p.error("Unexpected string literal");
     }
-    let m = p.start();
     // If the first token after the current one is an identifer, then the only
     // syntactically correct construct is a timing or imaginary literal.  Note that `s` is a
     // valid suffix for both a timing literal and a variable identifier, we
@@ -41,12 +40,17 @@ pub(crate) fn literal(p: &mut Parser<'_>) -> Option<CompletedMarker> {
         // We don't have access to the text of the identifier here, so we can't distinguish
         // timing literals from imaginary literals. We tag everything TIMING_LITERAL
         // Later in semantic analysis we separate imaginary literals from timing literals.
+        // The TIMING_LITERAL node encloses the LITERAL node of the number and the IDENTIFIER node
+        // of the unit. The markers are opened in that order, so that the nesting does not depend
+        // on what the caller does with the completed marker afterwards.
         let m2 = p.start(); // TIMING_LITERAL
+        let m = p.start(); // LITERAL
         p.bump_any(); // The numeric literal
         m.complete(p, LITERAL);
         identifier(p); // The time unit suffix, or quasi-suffix.
         return Some(m2.complete(p, TIMING_LITERAL));
     }
+    let m = p.start();
     p.bump_any();
     Some(m.complete(p, LITERAL))
 }
